@@ -232,6 +232,7 @@ CHECKS["C17"] = {
     "stub": _SIM + ["scheduling points and TryLock loops inserted into a scratch copy of the sources (semantics-preserving; cedar's own suite passes on the rewritten copy)", "credential files (in-memory CredentialReader)", "pid/hostname in session ids (verif hook)", "ccb.Listener against a live broker: not run"],
     "assumptions": ["fault-free network in the handshake workload (faults are other properties' subject)", _SAMPLING],
     "race": True,
+    "replay_retries": 5,
     "yield_build": ["security", "stream", "server", "client", "ccb", "message"],
     "mem_gb": 0,
 }
